@@ -3,6 +3,10 @@
 import json, subprocess
 
 CHECKS = {
+ "C19": ("exploration",
+         "Allocator-seam simulation: a counting global allocator with per-run thread-local accounts; the invariant peak <= 16 x bytes delivered + 192 KiB (+ documented stream buffers) is evaluated by the source seam at every call and cumulative allocation is bounded at the end. Workloads: packet headers of all 64 tags announcing 2^16..2^32-1 octets over <= 22 supplied (EOF or 1-byte drip); every offset of the first 300 body octets of every packet of real artifacts overwritten by large 1/2/4-octet values (covers every count/length/size field); 3*10^4 repeated packets judged by doubling; compression nesting to depth 120; 32 MiB streams built from a lazy source into a discarding sink and 8 MiB messages read with a fixed buffer across builder configurations (default SEIPDv1 against its max_message_size); Argon2 triples outside the documented ceiling must be refused with < 1 MiB allocated.",
+         "5 (C19)", "constants fixed from measurements on the pinned tree (parsed representations are up to ~16x their wire size; bzip2 state up to 8 MiB); runs that look over the bound are re-measured once so that one-time initialisations in dependencies are not charged to them; wall time is never judged",
+         "deterministic simulation with allocator accounting seam and declared-size fault injection"),
  "C04": ("exploration",
          "Structure-aware hostile artifacts delivered through hostile schedules and I/O faults: rpgp-produced messages, certificates, secret keys, signatures and cleartext documents damaged at the armor, packet, pre-encryption-plaintext (re-encrypted under the recipient's session key with real rpgp) and pre-compression layers by flips, stores, truncation, duplication, deletion, insertion and length edits; PKESKs around attacker-chosen session-key plaintext of every length 0..40 x sampled (thorough: all) first octets for each public-key algorithm; 0..255 sweeps of the leading parameter octets of SKESK, secret-key S2K, signature, one-pass, literal, compressed and key packets; every processing entry point under catch_unwind with seam step budgets and a 120 s watchdog. Scoped: the unstructured all-byte-strings half of the quantifier is fuzzing, not this technique.",
          "5 (C04)", "panics are observed through catch_unwind (a stack overflow or abort would kill the check, which then fails); reader accessors are not called after an error",
